@@ -970,6 +970,8 @@ func writeEvidence(id, tier string, seed uint64, m *meta, a *agg, wall float64, 
 		"rule":                          m.Rule,
 		"samples":                       samples,
 		"runs_per_hour":                 int(float64(a.evals) / wall * 3600),
+		"seeds_per_hour":                int(float64(a.evals) / wall * 3600),
+		"seeds_rule":                    "one derived seed per run: H(VERIF_SEED, property, run index[, sub-run])",
 		"simulated_time_s":              float64(a.simNS) / 1e9,
 		"controller_steps":              a.steps,
 		"steps_with_scheduling_choice":  a.ties,
